@@ -1209,10 +1209,41 @@ func (lw *lckWorld) pendingAtReturn(f *ssa.Function, run *ssa.Call, field, armed
 
 // formatFile implements LCK-5 and the dispatch half of LCK-4.
 func (lw *lckWorld) formatFile() {
-	w, r := lw.w, lw.r
+	w := lw.w
 	fi := w.MustFunc("generator.(*Formatters).FormatFile")
 	f := w.SSAFunc(fi)
-	name := fi.Name
+	// FormatFile may delegate the choice of the command to a builder method that returns the *exec.Cmd (or nil):
+	// then the builder carries the dispatch (one probe per path, a command only when the probe said present, the
+	// command being the probed tool), and FormatFile must run exactly what the builder returned, once, when it is
+	// not nil, and return that run's error.
+	var builder *ssa.Function
+	var buildCall *ssa.Call
+	nProbe := 0
+	for _, b := range f.Blocks {
+		for _, ins := range b.Instrs {
+			if c, ok := ins.(*ssa.Call); ok {
+				callee := c.Call.StaticCallee()
+				if callee != nil && lckProbes[callee] != nil {
+					nProbe++
+				}
+				if callee != nil && callee != f && lw.w.InProd(callee) && callee.Signature.Results().Len() == 1 && callee.Signature.Results().At(0).Type().String() == "*os/exec.Cmd" && len(callee.Blocks) > 0 {
+					builder, buildCall = callee, c
+				}
+			}
+		}
+	}
+	if builder != nil && nProbe == 0 {
+		lw.formatPaths(builder, fname(w, builder), "builder", nil)
+		lw.formatPaths(f, fi.Name, "wrapper", buildCall)
+		return
+	}
+	lw.formatPaths(f, fi.Name, "", nil)
+}
+
+// formatPaths enumerates the paths of f. mode "": f is FormatFile and does everything; "builder": f returns the command
+// to run, or nil; "wrapper": f is FormatFile and runs what its builder call (build) returned.
+func (lw *lckWorld) formatPaths(f *ssa.Function, name string, mode string, build *ssa.Call) {
+	w, r := lw.w, lw.r
 	probeCalls := map[*ssa.Function]int{}
 	for _, b := range f.Blocks {
 		for _, ins := range b.Instrs {
@@ -1229,13 +1260,17 @@ func (lw *lckWorld) formatFile() {
 	}
 	sort.Slice(ps, func(i, j int) bool { return ps[i].Pos() < ps[j].Pos() })
 	for _, p := range ps {
+		if mode == "wrapper" {
+			break // the builder consults the probes
+		}
 		c := "dispatch to " + p.Name()
 		r.cond(probeCalls[p] == 1, "LCK-4", name, c, w.Pos(f.Pos()), "FormatFile consults this probe at exactly one site", fmt.Sprintf("FormatFile consults probe %s at %d sites (expected exactly 1): a format is answered by another tool's probe or never probed", p.Name(), probeCalls[p]))
 	}
 	// path enumeration (acyclic expected)
 	type event struct {
-		kind string // probe-true, probe-false, run, sys, nilerr, nonnilerr
+		kind string // probe-true, probe-false, run, sys, nilerr, nonnilerr, build
 		val  ssa.Value
+		recv ssa.Value // run: the command that is run
 		fn   *ssa.Function
 		pos  token.Pos
 		desc string
@@ -1250,7 +1285,7 @@ func (lw *lckWorld) formatFile() {
 	}
 	walkFrom = func(from, b *ssa.BasicBlock, evs []event, visited map[*ssa.BasicBlock]bool, env phiEnv) {
 		if visited[b] {
-			r.bad("LCK-5", name, "loop", w.Pos(f.Pos()), "FormatFile contains a loop: a formatter may run more than once per request")
+			r.bad("LCK-5", name, "loop", w.Pos(f.Pos()), "the formatting path contains a loop: a formatter may run more than once per request")
 			return
 		}
 		if npaths > 5000 {
@@ -1289,9 +1324,15 @@ func (lw *lckWorld) formatFile() {
 					if len(x.Call.Args) > 0 {
 						args = cmdArgs(x.Call.Args[0])
 					}
-					evs = append(evs, event{kind: "run", val: x, pos: x.Pos(), desc: strings.Join(args, " ")})
+					ev := event{kind: "run", val: x, pos: x.Pos(), desc: strings.Join(args, " ")}
+					if len(x.Call.Args) > 0 {
+						ev.recv = x.Call.Args[0]
+					}
+					evs = append(evs, ev)
 				case callee != nil && lckProbes[callee] != nil:
 					// branch decided at the If below
+				case mode == "wrapper" && x == build:
+					evs = append(evs, event{kind: "build", val: x, pos: x.Pos()})
 				case callee != nil && callee.Pkg != nil && callee.Pkg.Pkg != nil:
 					pth := callee.Pkg.Pkg.Path()
 					if pth == "os" || pth == "io/ioutil" || pth == "io" || (pth == "os/exec" && callee.Name() != "Command" && callee.Name() != "CommandContext") {
@@ -1442,6 +1483,78 @@ func (lw *lckWorld) formatFile() {
 					k, ok := v.(*ssa.Const)
 					return ok && k.IsNil()
 				}
+				if mode == "wrapper" {
+					var b0 *event
+					for i := range evs {
+						if evs[i].kind == "build" {
+							b0 = &evs[i]
+						}
+					}
+					switch {
+					case b0 == nil:
+						if len(runs) > 0 || len(sys) > 0 || res == nil || !isNilConst(res) {
+							r.bad("LCK-5", name, c, pos, "a path that does not ask the command builder runs something or does not return nil")
+						} else {
+							r.ok("LCK-5", name, c, pos, "nothing built, nothing run, nil returned", true)
+						}
+					case nilOf[b0.val]:
+						if len(runs) > 0 || len(sys) > 0 {
+							r.bad("LCK-5", name, c, pos, "the builder returned no command (tool absent) but something runs on this path")
+						} else if res == nil || !isNilConst(res) {
+							r.bad("LCK-5", name, c, pos, "a path with the tool absent does not return nil")
+						} else {
+							r.ok("LCK-5", name, c, pos, "no command built: nothing runs, nil returned", true)
+						}
+					default:
+						if len(runs) != 1 || runs[0].recv != b0.val {
+							r.bad("LCK-5", name, c, pos, fmt.Sprintf("the command the builder returned is run %d times on this path, or another command is run (expected: that command, exactly once)", len(runs)))
+						} else if len(sys) > 0 {
+							r.bad("LCK-5", name, c, pos, "an extra process/file-system call besides the formatter run: "+sys[0].desc)
+						} else if res == runs[0].val || (res != nil && isNilConst(res) && nilOf[runs[0].val]) {
+							r.ok("LCK-5", name, c, pos, "the built command runs exactly once and its error is the returned value", true)
+						} else {
+							r.bad("LCK-5", name, c, pos, "the error of the formatter run is not what this path returns: a failing formatter is not reported")
+						}
+					}
+					return
+				}
+				if mode == "builder" {
+					// the value returned stands for the run: a command built by exec.Command, or nil
+					var builtArgs []string
+					if res != nil && !isNilConst(res) {
+						builtArgs = cmdArgs(res)
+					}
+					switch {
+					case len(runs) > 0 || len(sys) > 0:
+						r.bad("LCK-5", name, c, pos, "the command builder itself starts a process or touches the file system")
+					case len(probeT)+len(probeF) > 1:
+						r.bad("LCK-5", name, c, pos, "more than one probe is consulted on this path")
+					case len(probeT) == 1:
+						pi := lckProbes[probeT[0].fn]
+						agree := false
+						if len(builtArgs) > 0 {
+							for _, a := range pi.probeCmd {
+								if a == builtArgs[0] {
+									agree = true
+								}
+							}
+						}
+						if res == nil || isNilConst(res) || builtArgs == nil {
+							r.bad("LCK-5", name, c, pos, "tool reported present but no command built by exec.Command is returned on this path")
+						} else if !agree {
+							r.bad("LCK-4", name, c, pos, fmt.Sprintf("the program to run (%q) is not the one the probe looked for (%q): presence of one tool is taken for another", strings.Join(builtArgs, " "), strings.Join(pi.probeCmd, " ")))
+						} else {
+							r.ok("LCK-5", name, c+" → Command["+strings.Join(builtArgs, " ")+"]", pos, "tool present: the command of the probed tool is returned (FormatFile runs it once)", true)
+						}
+					default:
+						if res == nil || !isNilConst(res) {
+							r.bad("LCK-5", name, c, pos, "a command is returned although no probe reported the tool present")
+						} else {
+							r.ok("LCK-5", name, c, pos, "tool absent or no format: no command", true)
+						}
+					}
+					return
+				}
 				switch {
 				case len(probeT)+len(probeF) > 1:
 					r.bad("LCK-5", name, c, pos, "more than one probe is consulted on this path")
@@ -1496,7 +1609,7 @@ func (lw *lckWorld) formatFile() {
 	walk(nil, f.Blocks[0], nil, map[*ssa.BasicBlock]bool{}, phiEnv{})
 	r.note("formatfile_paths", npaths)
 	if npaths < 2 {
-		Undecided("FormatFile has %d paths: rule no longer matches", npaths)
+		Undecided("%s has %d paths: rule no longer matches", name, npaths)
 	}
 }
 
